@@ -647,6 +647,16 @@ func (e *Engine) addViolation(kind, label, site, msg string, vec []SymValue) {
 	v := &Violation{Label: label, Kind: kind, Site: site, Message: msg, Vector: vec, Harness: e.res.Harness}
 	if e.p != nil {
 		v.Trace = append(v.Trace, e.p.trace...)
+		if len(e.p.gs) > 1 {
+			for _, g := range e.p.gs {
+				st := [...]string{"runnable", "blocked", "done"}[g.status]
+				w := ""
+				if g.wait != nil {
+					w = " on " + g.wait.what
+				}
+				v.Trace = append(v.Trace, fmt.Sprintf("goroutine %d (%s): %s%s at %s", g.id, g.name, st, w, e.siteOf(g.top)))
+			}
+		}
 	}
 	for _, o := range e.res.Violations {
 		if o.Key() == v.Key() {
